@@ -98,6 +98,26 @@ CLAIMED.update({
             "DESIGN.md section 4, C12"),
 })
 
+CLAIMED.update({
+    "C05": ("bounded symbolic execution of a product harness (same symbolic scenario run twice through the real "
+            "Composition in two listing/linking orders; symx proxies + z3)",
+            "For each listed topology (chains, fan-in/out, double link, pull-based member, staged initial-data handshake, "
+            "delay-resolved ring) and permutation of the component list and of link creation (all of them in the thorough "
+            "tier up to a cap of 12 per topology, reversed orders in the quick tier), for all integer-microsecond start "
+            "offsets, steps, delays and end times (end after start) within the update bound: same outcome class, equal "
+            "exchanged infos, and z3 refutes any difference in final times, request times and received values.",
+            "DESIGN.md section 4, C05"),
+    "C20": ("bounded symbolic execution of the real static slots, of Composition.run through pull-based components, and "
+            "of WeightedSum with symbolic values (symx proxies + z3)",
+            "Static slots: for every sequence of 3-4 requests (None or any time) the delivery is term-equal to the one "
+            "publication, a second publication is refused, a static input fetches once. Pull-based: on topologies with one "
+            "or two pull-based components (fan-in, fan-out, delays around them) z3 refutes 'provider invoked for a time "
+            "other than the consumer's (shifted) request' and 'own pulls at another time'; C01 obligations hold through "
+            "them except for the recorded known finding (fan-out at a pull-based output). WeightedSum: delivered term ≡ "
+            "Σ value·weight (2-3 pairs, mixed compatible units, one and two consumers).",
+            "DESIGN.md section 4, C20"),
+})
+
 PENDING = {}
 
 NOT_APPLICABLE = {
